@@ -13,6 +13,7 @@ import (
 	"sort"
 	"strconv"
 	"strings"
+	"sync/atomic"
 
 	"github.com/osteele/liquid"
 	"github.com/osteele/liquid/values"
@@ -138,6 +139,25 @@ func (a *lqAcct) Total() int   { return 2 * a.N }
 type sharedArr struct {
 	elems []string
 	slice []any
+}
+
+var indirectBuilds atomic.Int64
+
+// allocOrder: the indices 0..n-1, rotated and (every other time) reversed by a count of the calls
+func allocOrder(n int) []int {
+	b := int(indirectBuilds.Add(1))
+	order := make([]int, n)
+	if n == 0 {
+		return order
+	}
+	for i := range order {
+		j := (i + b) % n
+		if b%2 == 1 {
+			j = n - 1 - j
+		}
+		order[i] = j
+	}
+	return order
 }
 
 // ptrDrop: a Drop implemented on a pointer type (usable as a map key by identity)
@@ -581,17 +601,28 @@ func realiseBase(v J, r *Repr, path, h string) (any, error) {
 			}
 			return t, nil
 		case "ptrkeys", "dropkeys": // keys held indirectly: pointers to the strings / Drops (on a pointer type) yielding them
+			// the keys are allocated in an order that changes with every map built, so that their addresses are
+			// not in the order of what they stand for (nor in the same order in two builds of the same map)
+			order := allocOrder(len(keys))
 			if h == "ptrkeys" {
 				t := map[*string]any{}
-				for _, k := range keys {
-					kk := k
-					t[&kk] = out[k]
+				ptrs := make([]*string, len(keys))
+				for _, i := range order {
+					kk := keys[i]
+					ptrs[i] = &kk
+				}
+				for i, k := range keys {
+					t[ptrs[i]] = out[k]
 				}
 				return t, nil
 			}
 			t := map[any]any{}
-			for _, k := range keys {
-				t[&ptrDrop{k}] = out[k]
+			ptrs := make([]*ptrDrop, len(keys))
+			for _, i := range order {
+				ptrs[i] = &ptrDrop{keys[i]}
+			}
+			for i, k := range keys {
+				t[ptrs[i]] = out[k]
 			}
 			return t, nil
 		case "anystrkeys": // the same string keys in a map[any]any, as a YAML decoder produces
